@@ -15,6 +15,9 @@ func init() {
 }
 
 func checkC07(c *Ctx, r *Report) {
+	// ... and none is taken out again: the lists of values, fields and models that were built element
+	// by element are not compacted or filtered afterwards (the spec post-processing only re-orders)
+	defer ruleNoCompaction(c, r, "C07.c", "generator/swagen", "core/metadata", "core/visitors")
 	// an enum lists exactly the declared constants: each constant's value is read with the
 	// accessor of its own kind (an unsigned constant above MaxInt64 is not "inexact")
 	defer ruleHelperShape(c, r, "C07.c", helperShape{Fn: "gast.ExtractConstValue",
